@@ -528,7 +528,7 @@ const versionFormat = "20060102150405"
 
 // NewVersion generates a new migration version.
 func NewVersion() string {
-	return time.Now().UTC().Format(versionFormat)
+	return simNow().UTC().Format(versionFormat)
 }
 
 // CheckVersion checks if the given version is valid Atlas version.
